@@ -30,7 +30,7 @@ from .engine import Executor, ModuleSrc, UserFn, Raised, St, Obligation
 from .values import NONE, VBool, VInt, VStr, VNone, VTuple, VList, VConst, Unsupported, lit
 
 # parameter type descriptors
-STR, INT, BOOL, URLT = "str", "int", "bool", "url"
+STR, INT, BOOL, URLT, BYTES = "str", "int", "bool", "url", "bytes"
 URL_PARTS = ("scheme", "netloc", "path", "query", "fragment")
 
 
@@ -47,23 +47,94 @@ def CONST(*vals):
 
 
 class LoopSpec:
-    def __init__(self, inv_src, modsrc=None):
-        self.inv_src = inv_src
-        self.tree = compile_expr(inv_src)
-        self.modsrc = modsrc
+    """contract of one loop: invariant; optionally the byte lists whose length the invariant
+    bounds (havocked per length), the output streams, ghost variables, and the specification
+    step expression every emission into a stream is checked against"""
 
-    def invariant(self, ex, st):
+    def __init__(self, spec, modsrc=None):
+        if isinstance(spec, str):
+            spec = {"inv": spec}
+        self.inv_src = spec["inv"]
+        self.tree = compile_expr(self.inv_src)
+        self.modsrc = modsrc
+        self.lists = spec.get("lists", {})          # name -> (min_len, max_len)
+        self.streams = spec.get("streams", [])      # names
+        self.ghost = spec.get("ghost", {})          # name -> init expression
+        self.step = compile_expr(spec["step"]) if "step" in spec else None
+        self.exit = compile_expr(spec["exit"]) if "exit" in spec else None
+        self.stream_result = spec.get("stream_result")   # callable(ex, st, stream) -> value of reading it
+
+    def _eval(self, ex, st, tree):
         g = st.env.get("__globals__")
+        saved_env = st.env
+        env = dict(st.env)
         if self.modsrc is not None:
             d = dict(g or {})
             d.update(self.modsrc.mod.__dict__)
-            st.env["__globals__"] = d
+            env["__globals__"] = d
+        for k, v in st.ghost.items():
+            env["G_" + k] = v
+        st.env = env
         try:
-            v, _ = ex.eval1(self.tree, st)
+            v, _ = ex.eval1(tree, st)
         finally:
-            if g is not None:
-                st.env["__globals__"] = g
-        return ex.truth(st, v)
+            st.env = saved_env
+        return v
+
+    def invariant(self, ex, st):
+        return ex.truth(st, self._eval(ex, st, self.tree))
+
+    def emit(self, ex, st, stream, items, node):
+        """one emission into a stream: must be exactly the unit the specification's step
+        function produces at the ghost pointer, which then advances"""
+        from .engine import Raised
+        if self.step is None:
+            raise Unsupported("stream without a step specification")
+        g = st.env.get("__globals__")
+        saved_env = st.env
+        env = dict(st.env)
+        if self.modsrc is not None:
+            d = dict(g or {})
+            d.update(self.modsrc.mod.__dict__)
+            env["__globals__"] = d
+        for k, v in st.ghost.items():
+            env["G_" + k] = v
+        st.env = env
+        depth = len(st.handled)
+        st.handled.append((BaseException,))
+        try:
+            outs = []
+            for v, s2 in ex.eval(self.step, st):
+                outs.append((v, s2))
+                del s2.handled[depth:]
+                s2.env = saved_env if s2 is st else _strip_ghost_env(s2.env, saved_env)
+                if isinstance(v, Raised):
+                    ex.oblige(s2, f"emit:{stream.name}:specification-step-raises", "emit", z3.BoolVal(False), node)
+                    continue
+                unit, consumed = v.items
+                if len(unit.items) != len(items):
+                    ex.oblige(s2, f"emit:{stream.name}:unit-length({len(items)} emitted, {len(unit.items)} specified)",
+                              "emit", z3.BoolVal(False), node)
+                else:
+                    goal = z3.And([ex.equal(s2, a, b) for a, b in zip(items, unit.items)] + [z3.BoolVal(True)])
+                    ex.oblige(s2, f"emit:{stream.name}==spec-unit", "emit", goal, node)
+                    s2.ctx.assume(goal)
+                s2.ghost = dict(s2.ghost)
+                s2.ghost["p"] = VInt(V.name_term(s2.ctx, s2.ghost["p"].t + consumed.t, "p"))
+                yield s2
+        finally:
+            st.env = saved_env
+            del st.handled[depth:]
+
+
+def _strip_ghost_env(env, saved_env):
+    e = dict(env)
+    for k in list(e):
+        if k.startswith("G_"):
+            del e[k]
+    if "__globals__" in saved_env:
+        e["__globals__"] = saved_env["__globals__"]
+    return e
 
 
 def compile_expr(src):
@@ -90,7 +161,7 @@ class Contract:
     def __init__(self, qual, params, spec=None, requires=None, raises=(), loops=None, props=(),
                  lift=None, note="", abstract=None, result_type=None, search=None, cuts=(),
                  opaque=False, shape=None, ensures=None, transparent=(), assumed=False, memo_transparent=(),
-                 on_apply=None):
+                 on_apply=None, shards=1, native_spec=None, spec_module=None):
         self.qual = qual              # "yarl._parse:split_netloc"
         self.params = params          # list[(name, type)]
         self.spec = spec              # native function object defined in a contracts module
@@ -111,6 +182,9 @@ class Contract:
         self.assumed = assumed        # contract used at call sites but not (yet) proved for its function
         self.memo_transparent = set(memo_transparent)   # ... additionally while checking memo entries
         self.on_apply = on_apply      # hook instantiating a proved lemma for structured arguments
+        self.shards = shards          # the paths of the real function are distributed over this many tasks
+        self.native_spec = native_spec   # executable oracle for replays when `spec` cannot be run symbolically
+        self.spec_module = spec_module   # module whose names loop contracts may use when spec is None
 
     # --- use at a call site: the callee is its specification -----------------
     def apply(self, ex, st, args, kwargs, node, f):
@@ -260,6 +334,8 @@ def make_param(ctx, name, ty):
         return [("bool", ("bool", name))]
     if ty == URLT:
         return [("URL", ("url", name))]
+    if ty == BYTES:
+        return [("bytes", ("bytes", name))]
     if isinstance(ty, tuple) and ty[0] == "const":
         return [(repr(c), ("const", c)) for c in ty[1]]
     raise ValueError(ty)
@@ -271,6 +347,8 @@ def instantiate_param(ex, ctx, desc):
     kind, name = desc
     if kind == "str":
         return V.sym_str(ctx, name)
+    if kind == "bytes":
+        return V.sym_str(ctx, name, kind="bytes")
     if kind == "int":
         return VInt(z3.Int(name))
     if kind == "bool":
@@ -501,7 +579,7 @@ def _eval_relation(ex, st, src, cenv, senv, spec_ms):
     return ex.truth(st, v)
 
 
-def verify_contract(contract, registry, combo_filter=None, timeout_ms=10000, rounds=3, seg_filter=None):
+def verify_contract(contract, registry, combo_filter=None, timeout_ms=10000, rounds=3, seg_filter=None, shard=None):
     """Generate and discharge every obligation of one function. Returns a result dict."""
     if isinstance(contract, Lemma):
         return verify_lemma(contract, registry, combo_filter, timeout_ms, rounds)
@@ -515,7 +593,8 @@ def verify_contract(contract, registry, combo_filter=None, timeout_ms=10000, rou
     if node is None:
         res["unsupported"].append(f"function {contract.qual} not found in source")
         return res
-    spec_ms = ModuleSrc.get(contract.spec.__module__) if contract.spec else None
+    spec_ms = ModuleSrc.get(contract.spec.__module__) if contract.spec else (
+        ModuleSrc.get(contract.spec_module.__name__) if contract.spec_module else None)
     spec_node = spec_ms.funcs.get(contract.spec.__qualname__) if contract.spec else None
     cuts = contract.cuts
     code_idx = [0] + [_find_anchor(node.body, c.anchor) for c in cuts] + [len(node.body)]
@@ -571,7 +650,7 @@ def verify_contract(contract, registry, combo_filter=None, timeout_ms=10000, rou
             broke = False
             for st in pre_states:
               try:
-                  code_env = ex.bind_params(fn, args)
+                  code_env = ex.bind_params(fn, args, [n for n, _ in contract.params])
                   spec_env = ex.bind_params(sp, sargs) if sp else {}
                   code_env["__globals__"] = ms.mod.__dict__
                   if seg > 0:
@@ -600,6 +679,8 @@ def verify_contract(contract, registry, combo_filter=None, timeout_ms=10000, rou
                       continue
                   for flow, val, s2 in ex.run_range(st, fn, dict(code_env), code_idx[seg], code_idx[seg + 1]):
                       pi += 1
+                      if shard is not None and pi % shard[1] != shard[0]:
+                          continue          # another task of the pool handles this path
                       res["paths"] += 1
                       if res["paths"] > ex.max_paths:
                           raise Unsupported("path budget exceeded")
@@ -670,7 +751,7 @@ def verify_contract(contract, registry, combo_filter=None, timeout_ms=10000, rou
                   res["unsupported"].append(f"{label}: {u}")
                   broke = True
                   break
-            if pi == 0 and not broke:
+            if pi == 0 and not broke and (shard is None or shard[0] == 0):
                 # no path at all: either the argument kinds are excluded by the precondition
                 # (fine for one combination) or the contract is vacuous (caught by the caller,
                 # which requires at least one explored path per function)
@@ -709,7 +790,7 @@ def concretise(model, contract, combo):
             out[name] = None
             continue
         kind, nm = desc
-        if kind == "str":
+        if kind in ("str", "bytes"):
             a = z3.Function(nm, z3.IntSort(), z3.IntSort())
             n = model.eval(z3.Int(nm + "_len"), model_completion=True).as_long()
             n = max(0, min(n, 200))
@@ -719,7 +800,7 @@ def concretise(model, contract, combo):
                 if not (0 <= c <= 0x10FFFF):
                     c = 0x61
                 chars.append(chr(c))
-            out[name] = "".join(chars)
+            out[name] = "".join(chars) if kind == "str" else bytes(ord(c) & 255 for c in chars)
         elif kind == "int":
             out[name] = model.eval(z3.Int(nm), model_completion=True).as_long()
         elif kind == "bool":
